@@ -86,3 +86,32 @@ pub fn fmt_join3(a: &str, b: &str, c: &str) -> String {
     r.push_str(c);
     r
 }
+
+// ---- contract stubs of std's slice sorts ------------------------------------------------------
+// std's driftsort/ipnsort does not leave CBMC's symbolic execution even for one-element slices
+// (measured: Desc::new with ONE const label > 600 s, 21 s with this stub).  Assumed contract (A1):
+// `sort`/`sort_by` produce the stable sorted permutation; the stub is a plain insertion sort.
+pub fn stub_sort<T: Ord>(v: &mut [T]) {
+    let n = v.len();
+    let mut i = 1;
+    while i < n {
+        let mut j = i;
+        while j > 0 && v[j - 1] > v[j] {
+            v.swap(j - 1, j);
+            j -= 1;
+        }
+        i += 1;
+    }
+}
+pub fn stub_sort_by<T, F: FnMut(&T, &T) -> core::cmp::Ordering>(v: &mut [T], mut cmp: F) {
+    let n = v.len();
+    let mut i = 1;
+    while i < n {
+        let mut j = i;
+        while j > 0 && cmp(&v[j - 1], &v[j]) == core::cmp::Ordering::Greater {
+            v.swap(j - 1, j);
+            j -= 1;
+        }
+        i += 1;
+    }
+}
